@@ -478,7 +478,8 @@ func TestC26TLO(t *testing.T) {
 type tagPlant struct {
 	fileSet
 	Plant string `json:"plant"` // none explicit-explicit explicit-implicit zero func-vs-type
-	A, B  int    `json:"a_b"`   // indices of the two combinators involved (modulo the number of candidates)
+	A     int    `json:"a"` // indices of the two combinators involved (modulo the number of candidates)
+	B     int    `json:"b"`
 }
 
 func genTagPlant(rt *rapid.T) tagPlant {
